@@ -1997,6 +1997,13 @@ def _passes_container(prog):
     """is a bare variable passed as a call argument, or a captured return value mutated in place, somewhere?  (an
     OMITTED argument is not a passed container: a polluted default never gets the finding's signature)"""
     bodies = [prog["main"]] + [f["body"] for f in prog["flows"]]
+    for f in prog["flows"]:
+        # `return $g` of a variable the callee declared global hands the caller the shared global object itself (a later
+        # in-place mutation of `$g` by anybody shows in the caller's captured variable, and vice versa)
+        gl = {s_["name"] for s_ in f["body"] if s_["op"] == "global"}
+        if any(s_["op"] == "ret" and s_["e"].get("var") in gl for s_ in f["body"]) and \
+                any(s_["op"] == "call" and s_.get("ret") and s_["flow"] == f["name"] for b in bodies for s_ in b):
+            return True
     for b in bodies:
         rets = {s_["ret"] for s_ in b if s_["op"] == "call" and s_.get("ret")}
         for s_ in b:
